@@ -1,6 +1,6 @@
 (** C09 (iii): Registry.Unmarshal is total on every byte string (with the extracted length guard). *)
 From Coq Require Import List NArith ZArith String Bool Lia.
-From GV Require Import Base.Ints Model.Registry Gen.Registry.
+From GV Require Import Base.Ints Model.Registry Gen.RegistryC09.
 Import ListNotations.
 Local Open Scope Z_scope.
 
